@@ -101,18 +101,20 @@ func c03r1(c *Ctx, id string) {
 
 // handlerHarness evaluates a stream-observer handler over its predicate oracles.
 func handlerHarness(oi *obsInfo, h *ssa.Function) *Harness {
-	noinl := map[string]bool{fname(oi.gate): true, fname(oi.member): true, fname(oi.skipWin): true, fname(oi.deliver): true,
+	noinl := map[string]bool{fname(oi.member): true, fname(oi.skipWin): true, fname(oi.deliver): true,
 		"(*couchbase.observer).convertToCollectionName": true,
 		"(*couchbase.ObserverMetric).AddMutation":       true, "(*couchbase.ObserverMetric).AddDeletion": true, "(*couchbase.ObserverMetric).AddExpiration": true}
+	oi.gateNoInline(noinl)
 	return &Harness{
 		Fn:       h,
 		Bools:    []string{"fwd", "skip", "in"},
 		NoInline: noinl,
 		Quiet:    append([]string{"time.Unix"}, quietLog...),
 		Oracle: func(st *State, name string, args []AV, res *types.Tuple) ([]AV, bool) {
-			switch name {
-			case fname(oi.gate):
+			if oi.isGateName(name) {
 				return []AV{avBool{st.B("fwd")}}, true
+			}
+			switch name {
 			case fname(oi.skipWin):
 				return []AV{avBool{st.B("skip")}}, true
 			case fname(oi.member):
@@ -288,15 +290,16 @@ func c03r2(c *Ctx, id string) {
 	}
 	// forwarder
 	for _, fw := range fws {
-		var pPayload, pOff, pVb *ssa.Parameter
-		for _, p := range fw.Params[1:] {
+		var pPayload, pOff, pVb *vparam
+		for _, vp := range vparams(fw) {
+			vp := vp
 			switch {
-			case w.isOffsetPtr(p.Type()):
-				pOff = p
-			case isUint16(p.Type()):
-				pVb = p
-			case types.IsInterface(p.Type()) && pPayload == nil:
-				pPayload = p
+			case w.isOffsetPtr(vp.Type()):
+				pOff = &vp
+			case isUint16(vp.Type()):
+				pVb = &vp
+			case types.IsInterface(vp.Type()) && pPayload == nil && !strings.Contains(vp.Type().String(), "tracing."):
+				pPayload = &vp
 			}
 		}
 		if pPayload == nil || pOff == nil || pVb == nil {
